@@ -390,6 +390,10 @@ def check_pixels(case, rec):
             for half in (0, 1):
                 want = disp[2 * y + half][x]
                 have = got[2 * y + half][x]
+                if workaround and half in painted_bg and cell_bg is not None and tuple(cell_bg) == tuple(tbg):
+                    # kitty does not paint a background colour equal to its default background (the reason
+                    # for the library's workaround): such a half shows the terminal's own background
+                    have = None
                 if have == want:
                     continue
                 if (workaround and half in painted_bg and cell_bg is not None and want == tbg
